@@ -147,7 +147,7 @@ def case_term(case, d5=True):
 
 THEOREMS = ["C14_reachable_wf", "C14_call_state_independent", "C14_history_partial", "C14_history_refuted",
             "C14_first_call_terminates", "C14_lazy_dialect_diverges", "C14_lazy_specialisation_diverges",
-            "C14_dialect_first_raises", "C14_build_cycle_diverges", "C14_schedules_partial"]
+            "C14_no_cache_attribute_error", "C14_dialect_first_selfref_raises", "C14_build_cycle_diverges", "C14_schedules_partial"]
 
 
 def theorems(ctx):
@@ -195,15 +195,8 @@ def spec_key_tie(ctx):
 
 def correspondence(ctx, cases, limit=None):
     terms, srcs, nsteps = [], [], 0
-    from harness.props.c14 import has_dsup_gap
-    skipped = 0
     for case in cases:
         if "snaps" not in case or not case["snaps"]:
-            continue
-        if has_dsup_gap(case["fam"]):
-            # the model has no MRO: a subclass without ADD_DIALECT_SUPPORT of a class with it shares the parent's
-            # cache dicts in the real classes (known finding C14/dialect-cache-inherited-by-subclass)
-            skipped += 1
             continue
         try:
             t, n = case_term(case)
@@ -232,6 +225,5 @@ def correspondence(ctx, cases, limit=None):
         ctx.not_shown("correspondence " + name, detail)
     ctx.correspondence(name, len(terms), len(bad), detail or f"{nsteps} compared states")
     ctx.hist("correspondence", "histories", len(terms))
-    ctx.hist("correspondence", "skipped: subclass without dialect support of a class with it", skipped)
     ctx.hist("correspondence", "states", nsteps)
     return not bad
